@@ -36,7 +36,7 @@ CLAIMED = {
          "solver query (density scaling, count scaling, regrouping/reordering, energy= vs wavelength=, vector vs scalar "
          "through real numpy broadcasting), plus the conversion algebra and non-negativity; valid for all real values of "
          "counts, masses, scattering lengths, density, wavelength on the enumerated shapes."),
-   note="floats as exact reals; sqrt stub; abs/maximum by forking; vector length <= 2 (3 thorough); anchors 1.798 A/2200 m/s/25.3 meV are ground facts",
+   note="floats as exact reals; sqrt stub; abs/maximum by forking; vector length <= 2 (3 thorough); anchors 1.798 A/2200 m/s/25.3 meV are ground facts; a fresh-interpreter ground case covers a handful of first-lookup routes (element, isotope, ion, compound first) -- concrete, not a solver claim",
    technique="symbolic execution of the real Python functions on z3 Real proxies; relational SMT (QF_NRA) validity queries; replay of counterexamples",
    ref='4/C04'),
  'C17': dict(
@@ -129,7 +129,7 @@ CLAIMED = {
          "every node concretely. The 364-row association has no symbolic variable: an exhaustive concrete sweep (public table, "
          "and two further initialisations on fresh private tables; every field, has_sld, no-row atoms incl. isotopes added "
          "after loading, energy-table axes and nodes) against an independent reading is reported as ground facts."),
-   note="partial claim: the solver decides the loader logic; the row sweep is concrete; np.interp is an exact semantic model over the concrete node arrays",
+   note="partial claim: the solver decides the loader logic; the row sweep is concrete; np.interp is an exact semantic model over the concrete node arrays; a fresh-interpreter ground case covers a handful of first-lookup routes (element, isotope, ion, compound first) -- concrete, not a solver claim",
    technique="symbolic execution of the real loader on z3 Real proxies + SMT validity; fork-tree model of numpy.interp; CrossHair on fix_number",
    ref='4/C07'),
 
@@ -140,7 +140,7 @@ CLAIMED = {
          "density, masses and uninterpreted per-element scattering-factor functions of the energy (energy/wavelength agreement, "
          "vector vs scalar, linearity in density, isotope independence); (c) mirror_reflectivity is proven to lie in [0,1] for "
          "an arbitrary complex refractive index over complex-sqrt / sin-cos / exp contracts; (d) f0 symbol resolution by CrossHair."),
-   note="quick: 14-node windows around absorption edges of 4 elements, thorough: 60-node windows of 14 elements and two whole tables; NaN-endpoint segments and doubled edge energies excluded; every node of every shipped table is additionally checked concretely (ground); one known finding (si.nff row order)",
+   note="quick: 14-node windows around absorption edges of 4 elements, thorough: 60-node windows of 14 elements and two whole tables; NaN-endpoint segments and doubled edge energies excluded; every node of every shipped table is additionally checked concretely (ground); one known finding (si.nff row order); a fresh-interpreter ground case covers a handful of first-lookup routes (element, isotope, ion, compound first) -- concrete, not a solver claim",
    technique="symbolic execution of the real Python functions on z3 Real/complex proxies + SMT (QF_NRA/QF_UFNRA) validity queries; CrossHair for the symbol logic",
    ref='4/C05'),
  'C18': dict(
@@ -159,7 +159,7 @@ CLAIMED = {
          "public and a fresh private table against independent readings of the embedded texts (CFML magnetic coefficients per "
          "charge state, DABAX f0 entries incl. the per-ion API, covalent radii and uncertainties, emission lines, crystal "
          "structures by position), reported as ground facts, not as a solver claim."),
-   note="partial claim: the solver decides the evaluators; associations are a concrete sweep; exp axiomatised (oracle reuses the code's applications)",
+   note="partial claim: the solver decides the evaluators; associations are a concrete sweep; exp axiomatised (oracle reuses the code's applications); a fresh-interpreter ground case covers a handful of first-lookup routes (element, isotope, ion, compound first) -- concrete, not a solver claim",
    technique="symbolic execution of the real Python functions through numpy on z3 Real proxies + SMT validity",
    ref='4/C20'),
 }
